@@ -71,7 +71,9 @@ C_NONE, C_MISSING, C_BOOL, C_INT, C_FLOAT, C_STR, C_BYTES = 0, 1, 2, 3, 4, 5, 6
 C_LIST, C_TUPLE, C_SET, C_FROZENSET, C_DICT, C_MPROXY, C_FUNCTION = 7, 8, 9, 10, 11, 12, 13
 C_UUID, C_DATE, C_DATETIME, C_TIME, C_TIMEDELTA, C_TIMEZONE, C_PATH, C_POSIXPATH = 20, 21, 22, 23, 24, 25, 26, 27
 C_COL, C_SCOL, C_ICOL, C_NAMED, C_HASLEN, C_OBJ1, C_OBJ2 = 28, 29, 30, 31, 32, 33, 34
+C_COL2 = 35          # a second enum whose __name__ is also "Col" (another module's class of the same name)
 C_INNER, C_SUB, C_BOX, C_BOX_INT, C_BOX_STR, C_BOX_INNER, C_PAIR, C_PAIR_INT_STR, C_NODE, C_BOX_ANY = 40, 41, 42, 43, 44, 45, 46, 47, 48, 49
+C_INNER2, C_BOX_COL, C_BOX_COL2, C_BOX_INNER2 = 50, 51, 52, 53   # twin `Inner`; Box specialised with each twin
 C_GEN = 100          # the generated class of a case; its specialisation is 101; further generated classes 102..
 NS_MODULE = "harness.state_ns"
 
@@ -89,6 +91,13 @@ class Universe:
             R = 1
             G = 2
             B = 3
+
+        def _twin_col():
+            class Col(enum.Enum):     # same __name__/__qualname__ tail as the first one, different members
+                C = 7
+                M = 8
+            return Col
+        Col2 = _twin_col()
 
         class SCol(str, enum.Enum):
             A = "a"
@@ -143,6 +152,7 @@ class Universe:
                               lambda ns: body(ns, {"v": T}, {"__type_params__": (T,)}))
         Pair = types.new_class("Pair", (State, typing.Generic[A, B]), {},
                                lambda ns: body(ns, {"a": A, "b": B}, {"__type_params__": (A, B)}))
+        Inner2 = types.new_class("Inner", (State,), {}, lambda ns: body(ns, {"q": str}, {"q": ""}))   # twin, not in state_ns
         state_ns.Inner, state_ns.Sub, state_ns.Box, state_ns.Pair = Inner, Sub, Box, Pair
         state_ns.Col = Col
         Node = types.new_class("Node", (State,), {},
@@ -160,6 +170,7 @@ class Universe:
             C_INNER: Inner, C_SUB: Sub, C_BOX: Box, C_BOX_INT: Box[int], C_BOX_STR: Box[str],
             C_BOX_INNER: Box[Inner], C_PAIR: Pair, C_PAIR_INT_STR: Pair[int, str], C_NODE: Node,
             C_BOX_ANY: Box[typing.Any],
+            C_COL2: Col2, C_INNER2: Inner2, C_BOX_COL: Box[Col], C_BOX_COL2: Box[Col2], C_BOX_INNER2: Box[Inner2],
         }
         self.ids = {c: i for i, c in self.cls.items()}
         self.funcs = [_f0, _f1, _f2, _f3]
@@ -215,19 +226,22 @@ def universe() -> Universe:
     return _U
 
 
-ENUM_MEMBERS = {C_COL: ["-", "-", "-"], C_SCOL: ['s"a"', 's"b"'], C_ICOL: ["i1", "i2"]}
+ENUM_MEMBERS = {C_COL: ["-", "-", "-"], C_SCOL: ['s"a"', 's"b"'], C_ICOL: ["i1", "i2"], C_COL2: ["-", "-"]}
 # fixed specialisation table of the universe: (generic, closed argument terms) -> class id
 BASE_SPECS = [
     [str(C_BOX), str(C_BOX_INT), ["cls", str(C_INT)]],
     [str(C_BOX), str(C_BOX_STR), ["cls", str(C_STR)]],
     [str(C_BOX), str(C_BOX_INNER), ["cls", str(C_INNER)]],
     [str(C_BOX), str(C_BOX_ANY), "any"],
+    [str(C_BOX), str(C_BOX_COL), ["cls", str(C_COL)]],
+    [str(C_BOX), str(C_BOX_COL2), ["cls", str(C_COL2)]],
+    [str(C_BOX), str(C_BOX_INNER2), ["cls", str(C_INNER2)]],
     [str(C_PAIR), str(C_PAIR_INT_STR), ["cls", str(C_INT)], ["cls", str(C_STR)]],
 ]
 BASE_NAMES = [["Inner", str(C_INNER)], ["Sub", str(C_SUB)], ["Node", str(C_NODE)], ["Col", str(C_COL)]]
 ATTRS_OF = {  # attributes of the universe's State classes (for building instances)
     C_INNER: ["n"], C_SUB: ["n", "m"], C_BOX: ["v"], C_BOX_INT: ["v"], C_BOX_STR: ["v"], C_BOX_INNER: ["v"],
-    C_BOX_ANY: ["v"], C_PAIR: ["a", "b"], C_PAIR_INT_STR: ["a", "b"], C_NODE: ["val", "next"],
+    C_BOX_ANY: ["v"], C_INNER2: ["q"], C_BOX_COL: ["v"], C_BOX_COL2: ["v"], C_BOX_INNER2: ["v"], C_PAIR: ["a", "b"], C_PAIR_INT_STR: ["a", "b"], C_NODE: ["val", "next"],
 }
 
 
